@@ -216,7 +216,7 @@ template <typename T> static void op_dualquat(const Case& c, Outcome& o) {
   if (!fin4(rr) || !fin4(rd)) { o.bad(1, "dual-quaternion lerp is NaN/Inf"); return; }
   for (int pass = 0; pass < (ambiguous ? 2 : 1); ++pass) {
     W ss = pass ? -s : s; bool ok = true, ok0 = true, ok1 = true; W refr[4];
-    for (int i = 0; i < 4 && ok; ++i) { const W* xs[2] = {xr, xd}; const W* ys[2] = {yr, yd}; const W* rs[2] = {rr, rd};
+    for (int i = 0; i < 4; ++i) { const W* xs[2] = {xr, xd}; const W* ys[2] = {yr, yd}; const W* rs[2] = {rr, rd};
       for (int h = 0; h < 2; ++h) { W ref = xs[h][i] * (1 - tw) + ss * ys[h][i] * tw, mag = absW(xs[h][i]) * absW(1 - tw) + absW(ys[h][i]) * absW(tw); if (h == 0) refr[i] = ref;
         if (!(absW(rs[h][i] - ref) <= 4 * u * mag + tiny)) ok = false;
         if (tw == 0 && !(absW(rs[h][i] - xs[h][i]) <= 2 * u * (absW(xs[h][i]) + absW(ys[h][i])) + tiny)) ok0 = false;
